@@ -4,9 +4,11 @@ set -e
 n=$1; pid=$2; tier=${3:-quick}
 W=/tmp/seed/$n
 mkdir -p /verif/seeded/$n
-git -C $W diff -- sigma > /verif/seeded/$n/patch.diff
-cp $W/seed_demo.py /verif/seeded/$n/demo.py
-cp $W/seed_meta.json /verif/seeded/$n/agent_meta.json 2>/dev/null || true
+if [ -d $W ]; then
+  git -C $W diff -- sigma > /verif/seeded/$n/patch.diff
+  cp $W/seed_demo.py /verif/seeded/$n/demo.py
+  cp $W/seed_meta.json /verif/seeded/$n/agent_meta.json 2>/dev/null || true
+fi
 cd /repo
 test -z "$(git status --short)" || { echo "/repo dirty"; exit 2; }
 # demo on unchanged tree must pass
